@@ -112,3 +112,18 @@ pub fn key_id_of_jwk(v: &Value) -> Option<&'static str> {
     }
     None
 }
+
+/// SubjectPublicKeyInfo DER of a roster public key.
+pub fn pub_der(id: &str) -> Vec<u8> {
+    use base64::Engine;
+    let body: String = pub_pem(id).lines().filter(|l| !l.starts_with("-----")).collect();
+    base64::engine::general_purpose::STANDARD.decode(body.trim()).unwrap_or_default()
+}
+
+/// The raw key bytes a `DecodingKey` built from the PEM holds: the uncompressed EC point
+/// (0x04 || X || Y) or the 32-byte Ed25519 public key.
+pub fn pub_raw(id: &str) -> Vec<u8> {
+    let der = pub_der(id);
+    let n = if id.starts_with("ec") { 65 } else { 32 };
+    der[der.len().saturating_sub(n)..].to_vec()
+}
